@@ -97,6 +97,18 @@ def _compute_stats(
   axes = _canonicalize_axes(x.ndim, axes)
 
   def maybe_distributed_mean(*xs, mask=None):
+    if axis_name is not None and mask is not None:
+      # the slices may hold different numbers of valid positions: combine
+      # sums and counts, a mean of the per-slice means would be unweighted.
+      count = jnp.sum(jnp.broadcast_to(mask, xs[0].shape), axes, dtype=dtype)
+      sums = tuple(x.sum(axes, where=mask) for x in xs)
+      reduced = lax.psum(
+        jnp.stack(sums + (count,), axis=0),
+        axis_name,
+        axis_index_groups=axis_index_groups,
+      )
+      mus = tuple(reduced[i] / reduced[-1] for i in range(len(xs)))
+      return mus if len(xs) > 1 else mus[0]
     mus = tuple(x.mean(axes, where=mask) for x in xs)
     if axis_name is None:
       return mus if len(xs) > 1 else mus[0]
